@@ -592,7 +592,7 @@ Fixpoint go (n : nat) (m : mode) (g : G) (ctx : val) (s : st) {struct n} : outco
               (Ok (mapv m (fun a0 =>
                      fold_left (fun acc it =>
                        VTag k (VPair (VPair acc (item_val it))
-                                     (VPair (vspan (spn (cur s) (item_after it))) (VNat (N.to_nat (item_ust it))))))
+                                     (VPair (vspan (spn (cur s) (item_after it))) (VNum (item_ust it)))))
                        (rev acc) a0) va), s2)
           | (res, _, _, s2) => (res, s2)
           end
@@ -616,7 +616,7 @@ Fixpoint go (n : nat) (m : mode) (g : G) (ctx : val) (s : st) {struct n} : outco
               (Ok (mapv m (fun b0 =>
                      fold_left (fun acc it =>
                        VTag k (VPair (VPair (item_val it) acc)
-                                     (VPair (vspan (spn (item_before it) (cur s2))) (VNat (N.to_nat (ust s2))))))
+                                     (VPair (vspan (spn (item_before it) (cur s2))) (VNum (ust s2)))))
                        acc b0) vb), s2)
           | res => res
           end
